@@ -705,7 +705,37 @@ func loadReplay(path, prop string) []Case {
 	return out
 }
 
+var (
+	costByClass = map[string][2]int64{}
+)
+
+func dumpCost() {
+	if os.Getenv("PARSERS_VERBOSE") == "" {
+		return
+	}
+	type kv struct {
+		k string
+		v [2]int64
+	}
+	var l []kv
+	for k, v := range costByClass {
+		l = append(l, kv{k, v})
+	}
+	sort.Slice(l, func(i, j int) bool { return l[i].v[0] > l[j].v[0] })
+	for i, e := range l {
+		if i < 40 {
+			fmt.Fprintf(os.Stderr, "[parsers] cost %-50s %8d ms over %7d cases\n", e.k, e.v[0], e.v[1])
+		}
+	}
+	costByClass = map[string][2]int64{}
+}
+
 func record(c *Ctx, cs *Case, r *Res) {
+	k := cs.Fam + " " + cs.Mut + " " + r.Status
+	v := costByClass[k]
+	v[0] += r.Ms
+	v[1]++
+	costByClass[k] = v
 	nontrivial := len(cs.Data) >= 2 && cs.Mut != "valid"
 	c.R.Case(fmt.Sprintf("%s|%x|%s", cs.Entry, h64(cs.Data), cs.FI.String()), nontrivial,
 		"mut."+cs.Mut, "entry."+cs.Entry, "status."+r.Status, "fam."+cs.Fam)
@@ -795,6 +825,10 @@ func runC08(c *Ctx) {
 		}
 	}
 	execute(c, cases, st, on)
+	dumpCost()
+	if os.Getenv("PARSERS_VERBOSE") != "" {
+		fmt.Fprintf(os.Stderr, "[parsers] search done %.1fs\n", time.Since(t0).Seconds())
+	}
 	hs := sortedHits(st)
 	// shrink one representative per root (class:site), then re-use nothing else: every signature keeps its own smallest input
 	doneRoot := map[string]bool{}
